@@ -567,20 +567,25 @@ impl<H: Host> Z80Bus for ZXController<H> {
             .map_or(false, |e| e.extends_port(port))
         {
             self.io_extender.as_mut().unwrap().write(port, data);
-        } else if port & 0xC002 == 0xC000 {
-            self.select_ay_reg(data);
-        } else if port & 0xC002 == 0x8000 {
-            self.write_ay_port(data);
-        } else if port & 0x0001 == 0 {
-            self.set_border_color(self.frame_clocks, ZXColor::from_bits(data & 0x07));
-            #[cfg(feature = "sound")]
-            {
-                let mic = data & 0x08 != 0;
-                let ear = data & 0x10 != 0;
-                self.mixer.beeper.change_state(ear, mic);
+        } else {
+            // AY is decoded by A15, A14 and A1 only, so an even address may select it together with
+            // the ULA (which looks at A0 alone)
+            if port & 0xC002 == 0xC000 {
+                self.select_ay_reg(data);
+            } else if port & 0xC002 == 0x8000 {
+                self.write_ay_port(data);
             }
-        } else if (port & 0x8002 == 0) && (self.machine == ZXMachine::Sinclair128K) {
-            self.write_7ffd(data);
+            if port & 0x0001 == 0 {
+                self.set_border_color(self.frame_clocks, ZXColor::from_bits(data & 0x07));
+                #[cfg(feature = "sound")]
+                {
+                    let mic = data & 0x08 != 0;
+                    let ear = data & 0x10 != 0;
+                    self.mixer.beeper.change_state(ear, mic);
+                }
+            } else if (port & 0x8002 == 0) && (self.machine == ZXMachine::Sinclair128K) {
+                self.write_7ffd(data);
+            }
         }
         // last contention after byte write
         self.io_contention_last(port);
